@@ -497,10 +497,10 @@ def _run(rep, tier, rng):
     for p in sorted(glob.glob(os.path.join(C.VERIF, "corpus", PROP, "*.json"))):
         cases.append(json.load(open(p))["case"])
     if thorough:
-        cases += gen_sequences(rng, 4, 4000, [5, 6])
+        cases += gen_sequences(rng, 4, 2500, [5, 6])
         cases += gen_crashes(rng)
         cases += gen_races(rng, [(False, True), (False, False), (True, True), (True, False)], 6)
-        cases += gen_races(rng, [(False, True)], 6, full=True, sample=6000)
+        cases += gen_races(rng, [(False, True)], 6, full=True, sample=3500)
         cases += gen_servers(rng, 60)
     else:
         cases += gen_sequences(rng, 3, 150, [4])
@@ -520,7 +520,7 @@ def _run(rep, tier, rng):
     rep.rule = ("corpus first; (a) every sequence of server behaviours {newer, same, older, up-to-date, error status, garbage, transport error} up to length 3 (thorough: 4) "
                 "plus sampled longer ones, each call on a fresh or the same client object; (b) a kill before every file-system/network step of a call that is about to rewrite the "
                 "cache (empty and filled cache), followed by requests against a well-behaved server; (c) two concurrent calls of one client answered with profiles of different "
-                "length, stepped in real threads under every interleaving of their write steps (thorough: also sampled interleavings of all their steps); (d) pairs of clients with "
+                "length, stepped in real threads under every interleaving of their write steps (thorough: four length/cache scenarios, plus sampled interleavings of ALL their steps); (d) pairs of clients with "
                 "equal/different ORG/FID/URL. Each run is judged by an independent oracle for the property (whole, newest, date asked, untouched on failure, never poisoned, right "
                 "server) and its logged steps are replayed through the Gallina model (vm_compute) comparing step names, cache content after every step, results, dates asked and "
                 "leftover temporary files. non-trivial = some call returned a profile; distinct by the whole case")
